@@ -126,7 +126,11 @@ pub fn strategy() -> BoxedStrategy<IndexHist> {
         proptest::collection::vec(op_strategy(false), 0..5),
         any::<bool>(),
         any::<bool>(),
-        proptest::collection::vec(op_strategy(true), 1..4),
+        // the crash phase always changes something: it starts with an add_entry
+        ((any::<u16>(), loc_strategy()), proptest::collection::vec(op_strategy(true), 0..3)).prop_map(|((k, loc), mut rest)| {
+            rest.insert(0, IOp::Add { k, loc });
+            rest
+        }),
         proptest::bool::weighted(0.2),
     )
         .prop_map(|(b, pool, pre, flush_before_clean_save, reopen, post, fail_first_rename)| IndexHist {
